@@ -345,3 +345,102 @@ def make_history(seed, index: int, tier: str = 'quick') -> dict:
         'mc': mc, 'ndraws': ndraws, 'draws': draws, 'threads': r.choice([1, 1, 2, 3]), 'remove': None,
         'ops': ops, 'op_values': values, 'bootstrap_samples': r.choice([1, 2, 3]), 'max_iterations': r.choice([5, 15, 40]),
     }
+
+
+# ---- re-declaration histories: panel(a) -> panel(b) ... on ONE Database object ----------------------
+REDECLARE_SEQUENCES = [
+    ['fine', 'coarse'], ['coarse', 'fine'], ['fine', 'fine'], ['coarse', 'coarse'],
+    ['fine', 'coarse', 'fine'], ['coarse', 'fine', 'coarse'],
+]
+REDECLARE_ACTIONS = ['evaluate', 'biogeme', 'remove', 'add_column', 'scale_column']
+
+
+def make_redeclare(seed, index: int, tier: str = 'quick') -> dict:
+    """Nested ids (persons 'fine' inside households 'coarse') on a generated table; a sequence of panel()
+    declarations on one Database with optional actions in between. With 'aligned' ids, sorting by the person id
+    keeps households together (both directions are valid declarations); otherwise fine -> coarse may legitimately
+    be refused by the library (counted, not judged)."""
+    r = random.Random(f'c09r/{seed}/{index}')
+    spec = make(f'r{seed}', index, 'quick', 'mc' if r.random() < 0.5 else 'random')
+    spec['mode'] = 'redeclare'
+    spec['remove'] = None
+    sizes = spec['sizes']
+    ni = len(sizes)
+    blocks = spec['blocks']
+    # households = runs of 1-3 consecutive canonical individuals
+    hh_of_ind = []
+    h = 0
+    j = 0
+    while j < ni:
+        k = r.choice([1, 1, 2, 2, 3])
+        for _ in range(min(k, ni - j)):
+            hh_of_ind.append(h)
+        j += k
+        h += 1
+    nh = h
+    hh_ids, _ = _ids(r, nh)
+    aligned = r.random() < 0.7
+    fine_ids = list(spec['ids'])
+    if aligned:
+        fine_ids = sorted(fine_ids, key=lambda v: (float(v), v))
+        if r.random() < 0.5:
+            fine_ids = fine_ids[::-1]
+    fine_col = spec['idcol']
+    coarse_col = r.choice([c for c in ID_NAMES if c != fine_col and c not in spec['canon']])
+    n = sum(spec['sizes'])
+    fine_of_row = []
+    coarse_of_row = []
+    for jj, b in enumerate(blocks):
+        fine_of_row += [fine_ids[jj]] * len(b)
+        coarse_of_row += [hh_ids[hh_of_ind[jj]]] * len(b)
+    spec['ids'] = fine_ids
+    spec['canon'][fine_col] = fine_of_row
+    spec['canon'][coarse_col] = coarse_of_row
+    spec['columns'] = list(spec['columns'])
+    spec['columns'].insert(r.randrange(len(spec['columns']) + 1), coarse_col)
+    # presentation: households shuffled, persons inside shuffled, rows inside shuffled
+    hh = {}
+    for jj, b in enumerate(blocks):
+        hh.setdefault(hh_of_ind[jj], []).append(list(b))
+    order = list(hh)
+    r.shuffle(order)
+    pres = []
+    for hk in order:
+        persons = hh[hk]
+        r.shuffle(persons)
+        for b in persons:
+            r.shuffle(b)
+            pres += b
+    spec['pres_a'] = pres
+    spec['pres_b'] = pres
+    spec['cols'] = {'fine': fine_col, 'coarse': coarse_col}
+    spec['aligned'] = aligned
+    spec['households'] = nh
+    spec['sequence'] = list(r.choice(REDECLARE_SEQUENCES))
+    between = []
+    kc = r.choice(list(spec['keysets']))
+    used_remove = False
+    for _ in range(len(spec['sequence']) - 1):
+        acts = []
+        if r.random() < 0.6:
+            for _ in range(r.randint(1, 2)):
+                a = r.choice(REDECLARE_ACTIONS)
+                if a == 'remove':
+                    if used_remove:
+                        continue
+                    val = r.choice(spec['keysets'][kc])
+                    keep = [t for t in range(n) if spec['canon'][kc][t] != float(val)]
+                    if not (1 < len(keep) < n):
+                        continue
+                    used_remove = True
+                    acts.append({'do': 'remove', 'col': kc, 'value': float(val)})
+                elif a == 'scale_column':
+                    acts.append({'do': 'scale_column', 'col': r.choice(spec['realcols']), 'scale': r.choice([0.5, 2.0, -1.0])})
+                elif a == 'add_column':
+                    acts.append({'do': 'add_column', 'col': r.choice(spec['realcols'])})
+                else:
+                    acts.append({'do': a})
+        between.append(acts)
+    spec['between'] = between
+    spec['shuffle_seed'] = r.randrange(10 ** 6)
+    return spec
